@@ -539,19 +539,23 @@ def array_expect(g, Vfull, nfull):
 
 
 def min_pair_distance(pos, V, periodic):
-    """brute force over all pairs and the images along the periodic box vectors"""
-    shifts = [np.zeros(3)]
+    """brute force over all pairs and the images along the periodic box vectors (an image and its negative give the
+    same set of pair distances, so one of each pair of images is visited); |p-q|^2 = p.p + q.q - 2 p.q on centred
+    coordinates (<= 100 A: absolute error of d^2 ~1e-11 A^2, irrelevant against the 0.5 A cutoff)"""
     rng = [(-1, 0, 1) if periodic[i] else (0,) for i in range(3)]
     best = np.inf
     n = len(pos)
+    p = pos - pos.mean(axis=0)
+    sq = (p ** 2).sum(axis=1)
     for c in itertools.product(*rng):
-        s = np.array(c, float) @ V
-        for k in range(0, n, 256):
-            dd = np.linalg.norm(pos[k:k + 256, None, :] - (pos + s)[None, :, :], axis=2)
-            if not any(c):
-                dd[np.arange(len(dd)), np.arange(k, k + len(dd))] = np.inf
-            best = min(best, dd.min())
-    return best
+        if c < tuple(-x for x in c):
+            continue
+        q = p + np.array(c, float) @ V
+        d2 = sq[:, None] + (q ** 2).sum(axis=1)[None, :] - 2 * (p @ q.T)
+        if not any(c):
+            d2[np.arange(n), np.arange(n)] = np.inf
+        best = min(best, d2.min())
+    return float(np.sqrt(max(best, 0.0)))
 
 
 def run_array(g, d, smult, skw, ckw, linear, bwidth):
@@ -600,12 +604,15 @@ def judge_array(g, d, base, disl, full, cabs, linear, bwidth, tag=''):
     bp = np.array(base.atoms.pos)
     dp = np.array(disl.atoms.pos)
     nt = len(g['ucell'].symbols)
-    if np.abs(bp - fp[oid]).max() > 1e-9 or not np.array_equal(np.array(base.atoms.atype), ft[oid]):
-        fails.append(Fail(key=tag + 'old-id-base', msg='returned base_system is not the untrimmed perfect crystal indexed by old_id'))
+    # the reference crystal is periodic in all three directions: an atom may sit at any periodic image of its site
+    if np.abs(mod_vectors(bp - fp[oid], Vf)).max() > 1e-9 or not np.array_equal(np.array(base.atoms.atype), ft[oid]):
+        fails.append(Fail(key=tag + 'old-id-base', msg='returned base_system is not the untrimmed perfect crystal indexed by old_id '
+                                                       '(modulo the periods of the reference box)'))
+        return fails
     if not np.array_equal((np.array(disl.atoms.atype) - 1) % nt + 1, ft[oid]):
         fails.append(Fail(key=tag + 'old-id-type', msg='old_id maps an atom to a reference atom of a different type'))
-    # displacement of every remaining atom from its reference atom
-    rp = fp[oid]
+    # displacement of every remaining atom from its reference atom (the returned one, just shown to be the crystal site)
+    rp = bp
     ulin = lin_disp(rp - cabs, g, L)
     if linear:
         uexp = ulin
@@ -656,10 +663,19 @@ def judge_array(g, d, base, disl, full, cabs, linear, bwidth, tag=''):
     return fails
 
 
+_FULL = {}
+
+
 def array_case(g, smult, skw, centre, linear, bwidth, tag=''):
     """run periodicarray on a fresh object; judge refusals and results. -> (fails, base, disl, cabs, d)"""
-    dref = new_disl(g)
-    full = dref.monopole(sizemults=list(smult), return_base_system=True, **skw)[0]   # untrimmed crystal (judged by the monopole clause)
+    fkey = (g['si'], g['mi'], tuple(smult), repr(sorted(skw.items())))
+    if fkey not in _FULL:
+        if len(_FULL) > 64:
+            _FULL.clear()
+        dref = new_disl(g)
+        # untrimmed crystal (judged by the monopole clause); read-only, so it is built once per worker and request
+        _FULL[fkey] = dref.monopole(sizemults=list(smult), return_base_system=True, **skw)[0]
+    full = _FULL[fkey]
     d = new_disl(g)
     ckw, cabs = centre_of(g, d, centre)
     L, nrem, misfit = array_expect(g, np.array(full.box.vects), full.natoms)
@@ -687,7 +703,9 @@ def array_case(g, smult, skw, centre, linear, bwidth, tag=''):
 def array(case):
     g = geometry(case['sys'], case['mn'])
     smult = sizemults(g, SIZES_ARRAY[case['size']])
-    d0 = new_disl(g)
+    if 'probe' not in g:
+        g['probe'] = new_disl(g)      # only read: number of offered shifts and the rotated cell's box (both judged by the monopole clause)
+    d0 = g['probe']
     fails = []
     bw = 0.0
     if case['bw']:
@@ -845,25 +863,17 @@ def sizes(case):
             s0 = max(s0, k)
         exp.append(s0)
     arg = {0: list, 1: tuple, 2: list}[case['kind']](base_s) if base_s is not None else None
-    keep = list(arg) if isinstance(arg, list) else None
     gen = d.monopole if case['genr'] == 0 else d.periodicarray
     kw = dict(amin=mins[0], bmin=mins[1], cmin=mins[2], return_base_system=True)
     if case['genr'] == 1:
         kw['linear'] = True
     fails = []
+    shown = repr(arg)
     try:
-        try:
-            base, disl = gen(sizemults=arg, **kw)
-        finally:
-            if keep is not None and arg != keep:
-                fails.append(Fail(key='sizemults-argument-mutated', msg='%s changed the caller\'s sizemults list' % gen.__name__,
-                                  observed=repr(arg), expected=keep))
-        if fails:
-            return fails
-        if case['kind'] == 2:       # the same request twice with the caller's own list object
-            base, disl = gen(sizemults=arg, **kw)
+        base, disl = gen(sizemults=arg, **kw)
     except TypeError as e:
-        return fails + [Fail(key='sizemults-%s-rejected' % type(arg).__name__, msg='%s(sizemults=%r) raised TypeError: %s' % (gen.__name__, keep or arg, e))]
+        # the docstrings ask for a tuple ("sizemults : tuple, optional"); a list is what the documentation examples pass
+        return [Fail(key='sizemults-%s-rejected' % type(arg).__name__, msg='%s(sizemults=%s) raised TypeError: %s' % (gen.__name__, shown, e))]
     except ValueError as e:
         if case['genr'] == 1 and ('not an integer' in str(e) or 'Deleted atom mismatch' in str(e)):
             L, nrem, misfit = array_expect(g, np.array(exp)[:, None] * rv, g_natoms(d, exp))
@@ -871,6 +881,21 @@ def sizes(case):
                 chk.note('refusal-sizes')
                 return []
         raise
+    if case['kind'] == 2:
+        # the caller's own list object is used for further requests with the same size multipliers: once more with
+        # this generator and once with monopole().  Whether the list was modified is not judged, only whether the
+        # multipliers the caller asked for are still honoured (statement: for all size multipliers).
+        kwm = dict(amin=mins[0], bmin=mins[1], cmin=mins[2], return_base_system=True)
+        for gen2, kw2 in ((gen, kw), (d.monopole, kwm)):
+            try:
+                base2, disl2 = gen2(sizemults=arg, **kw2)
+            except TypeError as e:
+                return [Fail(key='sizemults-list-reuse-rejected', msg='%s(sizemults=s) after %s(sizemults=s) with the same list s=%r raised TypeError: %s'
+                             % (gen2.__name__, gen.__name__, base_s, e), list_now=repr(arg))]
+            if np.abs(np.array(base2.box.vects) - np.array(exp)[:, None] * rv).max() > 1e-9:
+                fails.append(Fail(key='sizemults-list-reuse-size', msg='%s with the re-used list built a different size' % gen2.__name__,
+                                  observed=(np.linalg.norm(np.array(base2.box.vects), axis=1) / lens), expected=exp, list_now=repr(arg)))
+            chk.note('list-reuse-calls')
     V = np.array(base.box.vects)
     if np.abs(V - np.array(exp)[:, None] * rv).max() > 1e-9:
         fails.append(Fail(key='size-multipliers', msg='box is not max(sizemults, even-rounded ceil(min/length)) x rcell',
